@@ -7,6 +7,7 @@
 //   epoll_wait    never sleeps: hands the call to the active dialect (ipWaitHook)
 //   clock_gettime CLOCK_MONOTONIC reads the virtual clock when enabled
 #pragma once
+#include <poll.h>
 #include <errno.h>
 #include <stdio.h>
 #include <stdlib.h>
@@ -92,6 +93,7 @@ extern "C" ssize_t send(int fd, const void* buf, size_t n, int flags)
 
 // ---- epoll_ctl: interest per descriptor ---------------------------------------------------
 enum { IP_MAXFD = 4096 };
+static bool ipFailAccept[IP_MAXFD];  // the next accept4() on this descriptor fails (readiness was spurious / the peer aborted)
 static int ipMask[IP_MAXFD];      // -1 = not registered, else the epoll event mask
 static void* ipPtr[IP_MAXFD];     // the data.ptr registered with the descriptor
 static int ipLastAddFd = -1;      // descriptor of the most recent EPOLL_CTL_ADD
@@ -99,7 +101,7 @@ static bool ipMaskInit = false;
 
 static inline void ipMaskReset()
 {
-  for(int i = 0; i < IP_MAXFD; ++i) { ipMask[i] = -1; ipPtr[i] = 0; }
+  for(int i = 0; i < IP_MAXFD; ++i) { ipMask[i] = -1; ipPtr[i] = 0; ipFailAccept[i] = false; }
   ipMaskInit = true;
 }
 
@@ -109,6 +111,7 @@ extern "C" int epoll_ctl(int epfd, int op, int fd, struct epoll_event* ev)
   int r = (int)syscall(SYS_epoll_ctl, epfd, op, fd, ev);
   if(r == 0 && fd >= 0 && fd < IP_MAXFD)
   {
+    if(op == EPOLL_CTL_DEL || op == EPOLL_CTL_ADD) ipFailAccept[fd] = false;
     if(op == EPOLL_CTL_DEL) { ipMask[fd] = -1; ipPtr[fd] = 0; }
     else
     {
@@ -149,6 +152,33 @@ extern "C" int epoll_wait(int fd, struct epoll_event* ev, int max, int timeout)
 {
   if(ipWaitHook) return ipWaitHook(fd, ev, max, timeout);
   return ipRealEpollWait(fd, ev, max, timeout);
+}
+
+// ---- socket / socketpair / accept4: scripted failures ------------------------------------------
+static bool ipFailNextSocket = false;   // the next socket() / socketpair() of the library fails (EMFILE)
+static unsigned long ipFaultSocket = 0, ipFaultAccept = 0;
+
+extern "C" int socket(int domain, int type, int protocol)
+{
+  if(ipFailNextSocket) { ipFailNextSocket = false; ++ipFaultSocket; errno = EMFILE; return -1; }
+  return (int)syscall(SYS_socket, domain, type, protocol);
+}
+
+extern "C" int socketpair(int domain, int type, int protocol, int sv[2])
+{
+  if(ipFailNextSocket) { ipFailNextSocket = false; ++ipFaultSocket; errno = EMFILE; return -1; }
+  return (int)syscall(SYS_socketpair, domain, type, protocol, sv);
+}
+
+extern "C" int accept4(int fd, struct sockaddr* addr, socklen_t* len, int flags)
+{
+  if(fd >= 0 && fd < IP_MAXFD && ipFailAccept[fd])
+  { // fails only while the accept queue is still empty (a connection dialled in the meantime is accepted)
+    ipFailAccept[fd] = false;
+    struct pollfd p; p.fd = fd; p.events = POLLIN; p.revents = 0;
+    if((int)syscall(SYS_poll, &p, 1, 0) <= 0) { ++ipFaultAccept; errno = ECONNABORTED; return -1; }
+  }
+  return (int)syscall(SYS_accept4, fd, addr, len, flags);
 }
 
 // ---- getsockopt(SO_ERROR): scripted connect failure --------------------------------------------
